@@ -7,6 +7,10 @@ structure DState where
   st : St
   /-- ids of continuation points whose browse was Forward-only (their order is deterministic) -/
   exact : List Nat
+  /-- kind (with flag) of the last mutation that advanced `last_modified` -/
+  lastMut : String := "none"
+  /-- operational limit max_nodes_per_browse (MAX_NODES_PER_BROWSE after reset) -/
+  blimit : Nat := 50
 
 def showDesc (d : Desc) : String :=
   s!"{d.target}:{d.ty}:{boolStr d.fwd}:{d.cls}"
@@ -163,19 +167,142 @@ def zipResults (exact : List Nat) : List Nat → List BrowseResult → List Stri
     (showResult e false r :: ss, ex)
   | _, _ => ([], [])
 
+/-! ### arm tags -/
+
+def cmp3 (a b : Nat) : String := if a < b then "lt" else if a = b then "eq" else "gt"
+
+def withTags (res : String) (tags : List String) : String :=
+  if tags.isEmpty then res else res ++ " @@ " ++ ",".intercalate tags
+
+def browseTags (st : St) (n dir ty : Nat) (sub : Bool) (mask rmask req : Nat) (r : BrowseResult) : List String :=
+  match r.status with
+  | .nodeUnknown => ["b.st.nodeunknown"]
+  | .cpInvalid => []
+  | .good =>
+    let flt := filterOf ty sub
+    let all := refsByDirection st.sp n dir none
+    let kept := refsByDirection st.sp n dir flt
+    let descs := (browseDescs st.sp n dir ty sub mask rmask).getD []
+    let noMask := (browseDescs st.sp n dir ty sub 0 rmask).getD []
+    let k := clampMax req
+    ["b.st.good", s!"b.dir{dir}",
+     (if ty = 0 then "b.flt.null" else if isStdTy ty then "b.flt.std" else if ty = 9999 then "b.flt.disabled-nonreftype" else "b.flt.disabled-custom"),
+     (if sub then "b.sub1" else "b.sub0"),
+     (if mask = 0 then "b.mask.zero" else if mask % 256 = 0 then "b.mask.truncated-zero" else "b.mask.set"),
+     s!"b.rmask.ty{rmask % 2}", s!"b.rmask.fwd{rmask / 2 % 2}", s!"b.rmask.cls{rmask / 4 % 2}",
+     (if req = 0 then "b.req.zero" else s!"b.req.{cmp3 req 255}255"),
+     s!"b.pg.len-{cmp3 descs.length k}-k",
+     s!"cp.store.{cmp3 st.se.cps.length maxCPs}-max"] ++
+    (if descs.isEmpty then ["b.len.zero"] else []) ++
+    (if descs.length < noMask.length then ["b.mask.filtered-some"] else []) ++
+    (if kept.length < all.length then ["b.ty.excluded-some"] else []) ++
+    (match flt with
+      | some (f, true) => if kept.any (fun p => p.1.ty ≠ f) then ["b.ty.subtype-match"] else []
+      | _ => []) ++
+    (if kept.any (fun p => (nodeClass? st.sp.nodes p.1.target).isNone) then ["b.target-dangling"] else []) ++
+    (if r.cp.isSome ∧ st.se.cps.length = maxCPs then ["cp.evict"] else [])
+
+def mutKind : Mut → String
+  | .node _ _ => "node" | .nodep _ _ _ _ => "nodep" | .ref _ _ _ => "ref" | .refs _ => "refs"
+  | .settype _ _ => "settype" | .folder _ _ => "folder" | .addvars _ _ => "addvars" | .delref _ _ _ => "delref"
+  | .delnode _ dtr => s!"delnode{boolStr dtr}" | .sdelnode _ dtr => s!"sdelnode{boolStr dtr}"
+  | .sdelref _ _ _ _ _ => "sdelref" | .saddref _ _ _ _ _ => "saddref"
+
+def svcTag : Svc → String
+  | .good => "good" | .badNodeIdUnknown => "unknown" | .badSourceNodeIdInvalid => "nosource"
+  | .badTargetNodeIdInvalid => "notarget" | .badReferenceTypeIdInvalid => "badtype"
+  | .badNodeClassInvalid => "badclass" | .badDuplicateReferenceNotAllowed => "duplicate"
+
+def mutTags (st : St) (m : Mut) (r : Res) : List String :=
+  let ex (i : Nat) : Bool := (nodeClass? st.sp.nodes i).isSome
+  let detail : String :=
+    match m, r with
+    | .node i _, _ => if ex i then "m.node.exists" else "m.node.new"
+    | .nodep i _ _ _, _ => if ex i then "m.nodep.exists" else "m.nodep.new"
+    | .ref s t ty, _ => if hasRef st.sp s t ty then "m.ref.dup" else "m.ref.new"
+    | .refs l, _ => if l.isEmpty then "m.refs.empty" else "m.refs.some"
+    | .settype _ _, _ => "m.settype"
+    | .folder i _, _ => if ex i then "m.folder.exists" else "m.folder.new"
+    | .addvars _ ids, _ => if ids.isEmpty then "m.addvars.empty" else if ids.any ex then "m.addvars.some-exist" else "m.addvars.all-new"
+    | .delref s t ty, _ => if hasRef st.sp s t ty then "m.delref.hit" else "m.delref.miss"
+    | .delnode i dtr, _ =>
+      s!"m.delnode{boolStr dtr}." ++ (if !ex i then "missing" else if (aggregatesOf st.sp i).isEmpty then "leaf" else "parent")
+    | .sdelnode _ dtr, .mres (.svc sv) => s!"m.sdelnode{boolStr dtr}.{svcTag sv}"
+    | .sdelref _ _ _ fwd bidir, .mres (.svc sv) =>
+      s!"m.sdelref.{svcTag sv}." ++ (if bidir then "bidir" else if fwd then "fwd" else "inv")
+    | .saddref _ t _ fwd cls, .mres (.svc sv) =>
+      s!"m.saddref.{svcTag sv}" ++ (if sv = .badNodeClassInvalid then (if cls = 0 then "-unspecified" else if ex t then "-mismatch" else "") else "") ++
+        (if fwd then ".fwd" else ".inv")
+    | _, _ => "m.other"
+  let live := st.se.cps.any fun c => st.sp.lastMod ≤ c.lm
+  let bumped := st.sp.lastMod < (applyMut true st.sp m).1.lastMod
+  [detail] ++ (if live ∧ bumped then [s!"mlive.{mutKind m}"] else []) ++
+    (if live ∧ !bumped then [s!"mlive-nobump.{mutKind m}"] else [])
+
+def nextTags (st : St) (lastMut : String) (ids : List Nat) (rs : List BrowseResult) : List String :=
+  let kept := removeExpired st.sp.lastMod st.se.cps
+  let expired := st.se.cps.filter fun c => !(st.sp.lastMod ≤ c.lm)
+  let per := (ids.zip rs).flatMap fun (id, r) =>
+    match r.status with
+    | .good =>
+      (match st.se.cps.find? (fun c => c.id = id) with
+       | some c => [s!"n.pg.rem-{cmp3 (c.descs.length - c.start) c.maxRefs}-k"]
+       | none => []) ++ [if r.cp.isSome then "n.good.more" else "n.good.last"]
+    | _ =>
+      [if id ≥ st.se.nextId ∨ id = 0 then "n.inv.never-issued"
+       else if expired.any (fun c => c.id = id) then s!"n.inv.expired.after-{lastMut}"
+       else "n.inv.gone"]
+  [if ids.length = 1 then "n.ids.one" else "n.ids.many"] ++
+  (if ids.eraseDups.length < ids.length then ["n.ids.dup"] else []) ++
+  (if !expired.isEmpty then ["n.expired-removed"] else []) ++
+  (if kept.length = maxCPs then ["n.store-full"] else []) ++ per
+
+def dedupStr : List String → List String
+  | [] => []
+  | x :: xs => if xs.contains x then dedupStr xs else x :: dedupStr xs
+
 def dstep (s : DState) (toks : List String) : DState × String :=
   let run (op : Op) : St × Res := step s.st op
   match toks with
-  | ["reset"] => ({ st := init, exact := [] }, "ok")
+  | ["reset"] => ({ st := init, exact := [], lastMut := "none", blimit := 50 }, "ok")
   | ["browse", n, dir, ty, sub, mask, rmask, req] =>
     match n.toNat?, dir.toNat?, ty.toNat?, parseBool? sub, mask.toNat?, rmask.toNat?, req.toNat? with
     | some n, some dir, some ty, some sub, some mask, some rmask, some req =>
       if dir > 3 ∨ !(ty = 0 ∨ tyOk ty) ∨ !u32Ok mask ∨ !u32Ok rmask ∨ !u32Ok req then (s, "bad-op") else
+      if s.blimit = 0 then (s, "err BadTooManyOperations @@ bm.n-gt-limit") else
       match run (.browse n dir ty sub mask rmask req) with
       | (st, .browse r) =>
         let e := dir = 0
         let ex := match r.cp with | some i => if e then i :: s.exact else s.exact | none => s.exact
-        ({ st := st, exact := ex }, s!"ok {showResult e true r} c={st.se.cps.length}")
+        ({ s with st := st, exact := ex }, withTags s!"ok {showResult e true r} c={st.se.cps.length}"
+          (dedupStr (browseTags s.st n dir ty sub mask rmask req r)))
+      | (_, .panic) => (s, "panic")
+      | _ => (s, "bad-op")
+    | _, _, _, _, _, _, _ => (s, "bad-op")
+  | ["blimit", l] =>
+    match l.toNat? with
+    | some l => if u32Ok l then ({ s with blimit := l }, "ok") else (s, "bad-op")
+    | none => (s, "bad-op")
+  | ["browsev", n] =>
+    -- a view is specified: views are not supported, nothing is touched
+    match n.toNat? with
+    | some n => if u32Ok n then (s, "err BadViewIdUnknown @@ bv.view") else (s, "bad-op")
+    | none => (s, "bad-op")
+  | ["browsem", ns, dir, ty, sub, mask, rmask, req] =>
+    match parseList String.toNat? ns, dir.toNat?, ty.toNat?, parseBool? sub, mask.toNat?, rmask.toNat?, req.toNat? with
+    | some ns, some dir, some ty, some sub, some mask, some rmask, some req =>
+      if dir > 3 ∨ !(ty = 0 ∨ tyOk ty) ∨ !u32Ok mask ∨ !u32Ok rmask ∨ !u32Ok req ∨ !ns.all u32Ok ∨ ns.length > 30 then (s, "bad-op") else
+      let szTag := if ns.isEmpty then "bm.empty" else s!"bm.n-{cmp3 ns.length s.blimit}-limit"
+      match run (.browsem ns dir ty sub mask rmask req s.blimit) with
+      | (st, .nexts rs) =>
+        let e := dir = 0
+        let ex := rs.foldl (fun ex r => match r.cp with | some i => if e then i :: ex else ex | none => ex) s.exact
+        ({ s with st := st, exact := ex },
+          withTags s!"ok {" | ".intercalate (rs.map (showResult e true))} c={st.se.cps.length}"
+            [szTag, if ns.length = 1 then "bm.one" else "bm.many",
+             if (rs.filter fun r => r.cp.isSome).length > 1 then "bm.cps-many" else "bm.cps-le1"])
+      | (_, .fault) => (s, s!"err BadNothingToDo @@ {szTag}")
+      | (_, .tooMany) => (s, s!"err BadTooManyOperations @@ {szTag}")
       | (_, .panic) => (s, "panic")
       | _ => (s, "bad-op")
     | _, _, _, _, _, _, _ => (s, "bad-op")
@@ -185,8 +312,9 @@ def dstep (s : DState) (toks : List String) : DState × String :=
       match run (.next ids) with
       | (st, .nexts rs) =>
         let (ss, ex) := zipResults s.exact ids rs
-        ({ st := st, exact := ex ++ s.exact }, s!"ok {" | ".intercalate ss} c={st.se.cps.length}")
-      | (_, .fault) => (s, "err BadNothingToDo")
+        ({ s with st := st, exact := ex ++ s.exact }, withTags s!"ok {" | ".intercalate ss} c={st.se.cps.length}"
+          (dedupStr (nextTags s.st s.lastMut ids rs)))
+      | (_, .fault) => (s, "err BadNothingToDo @@ n.fault-empty")
       | (_, .panic) => (s, "panic")
       | _ => (s, "bad-op")
     | none => (s, "bad-op")
@@ -194,14 +322,18 @@ def dstep (s : DState) (toks : List String) : DState × String :=
     match parseToks s.st.se.nextId ids with
     | some ids =>
       match run (.release ids) with
-      | (st, .unit) => ({ s with st := st }, s!"ok c={st.se.cps.length}")
-      | (_, .fault) => (s, "err BadNothingToDo")
+      | (st, .unit) => ({ s with st := st }, withTags s!"ok c={st.se.cps.length}"
+          [if st.se.cps.length < s.st.se.cps.length then "rel.hit" else "rel.miss"])
+      | (_, .fault) => (s, "err BadNothingToDo @@ rel.fault-empty")
       | _ => (s, "bad-op")
     | none => (s, "bad-op")
   | t :: _ =>
     if isMutOp t then
       match parseMut toks with
-      | some m => let (st, r) := run (.mutate m); ({ s with st := st }, showFlag r)
+      | some m =>
+        let (st, r) := run (.mutate m)
+        let bumped := s.st.sp.lastMod < st.sp.lastMod
+        ({ s with st := st, lastMut := if bumped then mutKind m else s.lastMut }, withTags (showFlag r) (mutTags s.st m r))
       | none => (s, "bad-op")
     else (s, "bad-op")
   | _ => (s, "bad-op")
